@@ -125,6 +125,20 @@ theorem windows_eq_slide (k : Nat) (w rest : List Nat) (hw : w.length = k) (hk :
       rw [hre, ih (w' ++ [c]) hlen']
       simp [slide]
 
+/-- The recursive `windows` is the usual index form: window `i` is `seq[i : i+k]`. -/
+theorem windows_eq_range (k : Nat) (hk : 1 ≤ k) (l : List Nat) :
+    windows k l = (List.range (l.length + 1 - k)).map fun i => (l.drop i).take k := by
+  induction l with
+  | nil =>
+    have : 0 + 1 - k = 0 := by omega
+    simp [windows, this]
+  | cons x xs ih =>
+    by_cases hle : k ≤ xs.length + 1
+    · have : (x :: xs).length + 1 - k = (xs.length + 1 - k) + 1 := by simp; omega
+      rw [this, List.range_succ_eq_map]
+      simp [windows, hle, ih, Function.comp_def]
+    · simp [windows, hle]; omega
+
 theorem slide_length (w rest : List Nat) (hw : 1 ≤ w.length) : ∀ x ∈ slide w rest, x.length = w.length := by
   induction rest generalizing w with
   | nil => simp [slide]
@@ -267,5 +281,62 @@ theorem kmersContinuous_spec (n k : Nat) (hk : 1 ≤ k) (seq : List Nat) :
           · exact hvw c h
           · exact hvr c h
         simp [mapE, hok, hroll, hrhs]
+
+/-! ### spaced k-mers -/
+
+/-- Specification: the symbols a spaced k-mer at position `i` reads. -/
+def spacedWindow (seq spacing : List Nat) (i : Nat) : List Nat := spacing.filterMap fun o => seq[i + o]?
+
+theorem spacedWindow_length (seq spacing : List Nat) (i : Nat) (h : ∀ o ∈ spacing, i + o < seq.length) :
+    (spacedWindow seq spacing i).length = spacing.length := by
+  unfold spacedWindow
+  induction spacing with
+  | nil => rfl
+  | cons o os ih =>
+    have ho : i + o < seq.length := h o (by simp)
+    have : seq[i + o]? = some seq[i + o] := by simp [ho]
+    simp [List.filterMap_cons, this, ih fun x hx => h x (by simp [hx])]
+
+theorem spacedAt_eq (n : Nat) (seq : List Nat) (i : Nat) (rs os : List Nat) (hl : rs.length = os.length)
+    (h : ∀ o ∈ os, i + o < seq.length) :
+    spacedAt n seq i rs os = fuseN n rs (spacedWindow seq os i) := by
+  unfold spacedWindow
+  induction os generalizing rs with
+  | nil => cases rs <;> simp [spacedAt, fuseN, dotN]
+  | cons o os ih =>
+    cases rs with
+    | nil => simp at hl
+    | cons r rs =>
+      have ho : i + o < seq.length := h o (by simp)
+      have hget : seq[i + o]? = some seq[i + o] := by simp [ho]
+      have hih := ih rs (by simpa using hl) fun x hx => h x (by simp [hx])
+      simp only [spacedAt, hget, List.filterMap_cons, hih]
+      unfold fuseN
+      by_cases hc : n ≤ seq[i + o]
+      · simp [hc]
+      · by_cases hany : (os.filterMap fun o => seq[i + o]?).any (fun c => decide (n ≤ c)) = true
+        · simp [hc, hany]
+        · simp [hc, hany, dotN]
+
+/-- `_create_spaced_kmers` = map (correctly guarded) fuse over the spaced windows. -/
+theorem kmersSpaced_spec (n k : Nat) (spacing : List Nat) (hl : spacing.length = k) (last : Nat)
+    (hlast : spacing.getLast? = some last) (hmax : ∀ o ∈ spacing, o ≤ last) (seq : List Nat) :
+    kmersSpaced n k spacing seq =
+      if seq.length < last + 1 then .error .valueError
+      else mapE (fun i => fuseChecked n k ((spacedWindow seq spacing i).map Int.ofNat))
+        (List.range (seq.length - last)) := by
+  unfold kmersSpaced
+  simp only [hlast]
+  by_cases hlen : seq.length < last + 1
+  · simp [hlen]
+  · simp only [hlen, if_false]
+    have hr : seq.length - (last + 1) + 1 = seq.length - last := by omega
+    rw [hr]
+    apply mapE_congr
+    intro i hi
+    have hi' : i < seq.length - last := List.mem_range.mp hi
+    have hb : ∀ o ∈ spacing, i + o < seq.length := fun o ho => by have := hmax o ho; omega
+    rw [spacedAt_eq n seq i _ spacing (by rw [radixMult_length, hl]) hb]
+    exact (fuseChecked_ofNat n k _ (by rw [spacedWindow_length seq spacing i hb, hl])).symm
 
 end BiotiteModel.C03
